@@ -12,7 +12,7 @@
    input at any time (nothing invented, reordered or duplicated), and if the driver finished
    the items sent are exactly [ref items] and the downstream was finalized. *)
 From Coq Require Import List NArith Bool.
-From HV Require Import Push.Model Push.PBase Push.POne Push.PTwo Push.PFlatMap Push.PMore Push.PTwoOnce Push.PDemux Push.Run.
+From HV Require Import Push.Model Push.PBase Push.POne Push.PTwo Push.PFlatMap Push.PMore Push.PTwoOnce Push.PDemux Push.Run Push.PCompose.
 Import ListNotations.
 
 Theorem C12_map : forall A B (f : A -> B) fuel items rs0 fs0,
@@ -158,6 +158,62 @@ Theorem C12_demux_fixed_terminates : forall A fuel (items : list (nat * A)) (scr
     fst (fst (drive (demux_push (rec_push A)) fuel items ([], map (@ds0 A) scripts) [])) = Finished.
 Proof. exact (@demux_once_terminates). Qed.
 Print Assumptions C12_demux_fixed_terminates.
+
+(* COMPOSITION (Push/PCompose.v).  [respects p Inv]: every operation of push [p] preserves the
+   invariant family [Inv] provided p's caller respects the protocol; [respects_rf] additionally
+   tolerates poll_ready between poll_finalize calls (what FlatMap / Flatten do to their
+   downstream).  Stages are operators on such pairs, with the reference function composed:
+   a pipeline of protocol-respecting stages respects the protocol. *)
+Theorem C12_compose_forwarding : forall A B (p : push B) Inv (g : A -> option B),
+    respects_rf p Inv -> respects_rf (filter_map_push p g) (@SLInv _ _ p Inv g).
+Proof. exact filter_map_stage_rf. Qed.
+Print Assumptions C12_compose_forwarding.
+
+Theorem C12_compose_map : forall A B (p : push B) Inv (f : A -> B),
+    respects_rf p Inv -> respects_rf (map_push p f) (@SLInv _ _ p Inv (fun a => Some (f a))).
+Proof. exact map_stage_rf. Qed.
+Print Assumptions C12_compose_map.
+
+Theorem C12_compose_filter : forall A (p : push A) Inv (q : A -> bool),
+    respects_rf p Inv -> respects_rf (filter_push p q) (@SLInv _ _ p Inv (fun a => if q a then Some a else None)).
+Proof. exact filter_stage_rf. Qed.
+Print Assumptions C12_compose_filter.
+
+Theorem C12_compose_flat_map : forall A B (p : push B) Inv (g : A -> list B),
+    respects_rf p Inv -> respects_rf (flat_map_push p g) (@FMSInv _ _ p Inv g).
+Proof. intros A B p Inv g H. exact (fms_respects_rf g H). Qed.
+Print Assumptions C12_compose_flat_map.
+
+Theorem C12_compose_base : forall B, respects_rf (rec_push B) (@RecInv B).
+Proof. exact (@rec_respects_rf). Qed.
+Print Assumptions C12_compose_base.
+
+(* a three-stage pipeline obtained by composing the stage theorems over the recorder; the
+   correspondence check runs the same pipeline (pipe_map_flatmap_filter) on the real code *)
+Theorem C12_pipeline_map_flatmap_filter :
+  forall A B C (f : A -> B) (g : B -> list C) (q : C -> bool) fuel items rs0 fs0,
+    match drive (map_push (flat_map_push (filter_push (rec_push C) q) g) f) fuel items
+                (None, mkds rs0 fs0 []) [] with
+    | (o, _, s') =>
+      o <> Panicked /\
+      (o = Finished ->
+       wf (lg (snd s')) = true /\ findone (lg (snd s')) = true /\
+       sent (lg (snd s')) = filter q (flat_map g (map f items)))
+    end.
+Proof. exact pipe_map_flatmap_filter_correct. Qed.
+Print Assumptions C12_pipeline_map_flatmap_filter.
+
+(* Composition FAILS for the strict protocol when a stage that polls poll_ready between
+   poll_finalize calls (flat_map / flatten / resolve_futures) feeds fanout / unzip / demux:
+   finding pipeline/flat_map-over-fanout/poll_ready-after-finalize-Done (replays on the real code). *)
+Theorem C12_compose_flat_map_over_fanout_refuted :
+  match drive (flat_map_push (fanout_push (rec_push N) (rec_push N)) (fun x : N => [x; (x + 10)%N])) 20 [1%N]
+              (None, ((false, false), (mkds [] [] [], mkds [] [false] []))) [] with
+  | (o, _, s') => o = Finished /\ wf (lg (fst (snd (snd s')))) = false /\
+                  lg (fst (snd (snd s'))) = [ERdy true; EFin true; ERdy true; ESend 11%N; ERdy true; ESend 1%N; ERdy true; ERdy true]
+  end.
+Proof. exact flat_map_over_fanout_refuted. Qed.
+Print Assumptions C12_compose_flat_map_over_fanout_refuted.
 
 (* non-vacuity: a run with Pend answers in both scripts that finishes and delivers items *)
 Example C12_map_example :
